@@ -10,7 +10,7 @@ raises OverflowError or ValueError and nothing else; the other conversions (floa
 from_wbem_uri(), the SAX parser) are total functions into Option in the codec record, so any behaviour
 of theirs is covered.
 -/
-import Proofs.Lemmas.EnvShape
+import Proofs.Lemmas.FuelStable
 
 namespace C02
 open Pywbem.Model Pywbem.Model.Resp Pywbem.Model.Envelope Pywbem.Proto Pywbem.Model.XmlText Proofs.C02
@@ -112,6 +112,31 @@ theorem C02_envelope_no_leak_partial (C : EnvCodec) (hC : CodecOk C.toDecCodec) 
   · exact Or.inl (Or.inr (Or.inr (Or.inl h)))
   · exact Or.inl (Or.inr (Or.inr (Or.inr (Or.inr (Or.inl h)))))
   · exact Or.inr h
+
+/-- **the nesting budget matters only through RecursionError**: with a larger budget the outcome is
+    the same, unless the smaller budget ran out (monotonicity of the whole response path in the
+    embedded-object parser, by induction on the budget) -/
+theorem C02_budget_only_recursion (C : EnvCodec) (n m : Nat) (h : n ≤ m) (op : OpSpec) (t : Xml) :
+    handleResponse C n op t = handleResponse C m op t ∨ handleResponse C n op t = .error .recursionError :=
+  handleResponse_rel C n m h op t
+
+/-- **envelope_no_leak, idealised interpreter (full strength)**: whenever some budget suffices (the
+    outcome is not RecursionError), every larger budget gives the same outcome, and if that outcome is
+    an exception it is a documented class.  So RecursionError is the only way C02 can fail on the
+    response path, and it is purely an effect of the finite recursion limit. -/
+theorem C02_envelope_no_leak_when_budget_suffices (C : EnvCodec) (hC : CodecOk C.toDecCodec) (n : Nat) (op : OpSpec)
+    (t : Xml) (hn : handleResponse C n op t ≠ .error .recursionError) (m : Nat) (hm : n ≤ m) :
+    handleResponse C m op t = handleResponse C n op t ∧
+    ∀ e, handleResponse C m op t = .error e → Documented e := by
+  have heq : handleResponse C n op t = handleResponse C m op t := by
+    rcases C02_budget_only_recursion C n m hm op t with h | h
+    · exact h
+    · exact absurd h hn
+  refine ⟨heq.symm, ?_⟩
+  intro e he
+  rcases C02_envelope_no_leak_partial C hC m op t e he with h | h
+  · exact h
+  · subst h; rw [← heq] at he; exact absurd he hn
 
 /-- **C02, top level (partial)**: whatever status line, headers and body (as the tree the SAX layer
     delivers, or its rejection), every operation either returns or raises a documented error class
@@ -223,6 +248,41 @@ example : handleResponse ⟨toyCodec, fun _ => false⟩ 0
         [.elem "SIMPLERSP".toList [] [.elem "IMETHODRESPONSE".toList [("NAME".toList, "GetInstance".toList)]
           [.elem "ERROR".toList [("CODE".toList, ['x'])] []]]]])
     = .error .cimXmlParseError := rfl
+
+/-- **HTTP layer, exact**: the response body is looked at iff the status is 200 and the Content-type
+    header is absent or starts with application/xml or text/xml -/
+theorem C02_http_accepts_iff (h : HttpResp) :
+    httpLayer h = .ok () ↔
+      (h.status = 200 ∧ ∀ ct, headerGet h.headers "Content-type" = some ct →
+        (startsWith ct "application/xml" = true ∨ startsWith ct "text/xml" = true)) := by
+  unfold httpLayer
+  by_cases h1 : h.status ≠ 200
+  · by_cases h2 : h.status = 401 <;> simp [h1, h2]
+  · have h1' : h.status = 200 := by simpa using h1
+    cases hc : headerGet h.headers "Content-type" with
+    | none => simp [h1', pure, Except.pure]
+    | some ct =>
+      cases ha : startsWith ct "application/xml" <;> cases hb : startsWith ct "text/xml" <;>
+        simp [h1', ha, hb, pure, Except.pure]
+
+/-- **a CIM error surfaces with its status code**: if the parsed response is the expected
+    IMETHODRESPONSE whose first child is an ERROR element, the operation raises CIMError with
+    `int(CODE)` as status code — for every operation shape and whatever follows the ERROR element -/
+theorem C02_cim_error_surfaces (C : EnvCodec) (fuel : Nat) (op : OpSpec) (hk : op.kind = .imethod) (t : Xml)
+    (code : Str) (v : Int) (hv : pyInt code = some v) (d : Bool) (insts : List Inst) (rest : List RspKid)
+    (h : decCim C fuel t = .ok (.simplersp ⟨"IMETHODRESPONSE".toList, op.meth, .error code d insts :: rest⟩)) :
+    handleResponse C fuel op t = .error (.cimError v.toNat) := by
+  have h1 : responseKids "IMETHODRESPONSE" "SIMPLERSP" op.meth
+      (.simplersp ⟨"IMETHODRESPONSE".toList, op.meth, .error code d insts :: rest⟩) =
+      .ok (.error code d insts :: rest) := by
+    simp [responseKids, pure, Except.pure]
+  have h2 : imethodResult op (.error code d insts :: rest) = .error (.cimError v.toNat) := by
+    simp [imethodResult, raiseCimError, pyIntE, hv, bind, Except.bind]
+  unfold handleResponse
+  rw [h]
+  simp only [hk, bind, Except.bind]
+  rw [h1]
+  simp only [h2]
 
 /-! ### constant tables
 
